@@ -502,6 +502,28 @@ func checkC16(c *ctx) {
 	cdir := newScratch(work, "cons")
 	pkgdir := filepath.Join(cdir, "cons")
 	srcOf := map[string]string{}
+	// What may legally precede the constraint lines: line comments and blank
+	// lines for both syntaxes, a block comment for //go:build (go/build stops
+	// looking for // +build lines at a block comment, so that form is used with
+	// //go:build-only headers).
+	pr := prog.NewRand(c.Seed, hashS("C16b-preamble"))
+	for i := range cfiles {
+		h := cfiles[i].header
+		switch pr.Intn(8) {
+		case 0:
+			cfiles[i].header = "// Copyright (c) the authors.\n// Licensed under the terms in LICENSE.\n\n" + h
+		case 1:
+			cfiles[i].header = "\n\n" + h
+		case 2:
+			if !strings.Contains(h, "+build") {
+				cfiles[i].header = "/* Copyright (c) the authors.\n   Licensed under the terms in LICENSE. */\n\n" + h
+			}
+		case 3:
+			if !strings.Contains(h, "+build") {
+				cfiles[i].header = "/* generated header */\n" + h
+			}
+		}
+	}
 	for i, cf := range cfiles {
 		src := cf.header + fmt.Sprintf(trivialBody, "cons", i, i)
 		srcOf[cf.name] = src
